@@ -50,26 +50,20 @@ extern MPT_STRUCT(buffer) *mpt_array_reserve(MPT_STRUCT(array) *arr, size_t len,
 	 || (flags & MPT_ENUM(BufferImmutable))) {
 		MPT_STRUCT(buffer) *reserve;
 		
+		/* private copy keeps compatible content */
+		if (buf && (old == traits) && buf->_used) {
+			size_t used = buf->_used;
+			if (!(reserve = buf->_vptr->detach(buf, (len < used) ? used : len))) {
+				return 0;
+			}
+			arr->_buf = reserve;
+			return reserve;
+		}
 		if (!(reserve = _mpt_buffer_alloc(len, 0))) {
 			return 0;
 		}
 		reserve->_content_traits = traits;
 		if (buf) {
-			size_t used = buf->_used;
-			if (old) {
-				used -= used % old->size;
-			}
-			/* copy compatible content */
-			if ((old == traits)
-			 && !(flags & MPT_ENUM(BufferNoCopy))) {
-				if (used > len) {
-					used = len;
-				}
-				if (used && !mpt_buffer_set(reserve, traits, used, buf + 1, 0)) {
-					reserve->_vptr->unref(reserve);
-					return 0;
-				}
-			}
 			buf->_vptr->unref(buf);
 		}
 		arr->_buf = reserve;
